@@ -123,6 +123,7 @@ class Runner:
         self.sigs = set()
         self.samples = []
         self.first_last = None
+        self.configs_run = []
 
     # -- does Plan::first()/last() link on this tree?  (C10 observes through it)
     def probe_first_last(self, variant):
@@ -163,6 +164,9 @@ class Runner:
             return c, sig, C.run_monitor(cmd, timeout=timeout, env=env)
 
         results = C.parallel(one, list(enumerate(jobs)))
+        for c, _, _ in jobs:
+            if not any(x["name"] == c["name"] for x in self.configs_run):
+                self.configs_run.append(c)
         for c, sig, r in results:
             if r.timed_out:
                 self.verdict.harness_error("fsmmon %s timed out after %ds (watchdog; inconclusive): %s" % (c["name"], timeout, " ".join(r.cmd)))
@@ -189,13 +193,25 @@ class Runner:
     def finish(self, rule, extra=None):
         cov = self.verdict.coverage
         st = self.stats
+        # reach floors: what this property's oracles are about must actually have been observed; a run that
+        # did not get there decides nothing (exit 2, inconclusive) instead of reporting "held"
+        missing = []
+        for path in floors_for(self.prop, self.configs_run):
+            node = st
+            for part in path.split("/"):
+                node = node.get(part, 0) if isinstance(node, dict) else 0
+            if not node:
+                missing.append(path)
+        if missing:
+            self.verdict.harness_error("reach floor not met (nothing observed for: %s) - inconclusive" % ", ".join(missing))
+        cov["reach_floors_checked"] = floors_for(self.prop, self.configs_run)
         cov["evaluations"] = int(cov.get("evaluations", 0)) + int(st.get("cases", 0))
         cov["distinct_nontrivial"] = int(cov.get("distinct_nontrivial", 0)) + len(self.sigs)
         cov["rule"] = (cov.get("rule", "") + " " + rule).strip()
         cov["samples"] = (cov.get("samples") or []) + self.samples[:4]
         cov["configs"] = sorted(st.get("configs", {}).keys())
         for k in ("api_calls", "callback_events", "actions", "rounds_histogram", "activation_rounds_histogram", "round_outcomes",
-                  "outcomes", "load_pairs", "log_records", "profiles", "c15_deliveries_checked"):
+                  "outcomes", "load_pairs", "log_records", "profiles", "c15_deliveries_checked", "calls_at_round_limit"):
             if k in st:
                 cov[k] = st[k]
         for k, v in st.items():
@@ -203,6 +219,35 @@ class Runner:
                 cov[k] = v
         if extra:
             cov.update(extra)
+
+
+METHODS12 = ["entryGuard", "enter", "reenter", "preUpdate", "update", "postUpdate", "preReact", "react", "postReact", "query", "exitGuard", "exit"]
+
+FLOORS = {
+    "C01": ["quiescent_observations", "api_calls/update", "callback_events/enter", "callback_events/exit", "callback_events/reenter"],
+    "C02": ["processing_calls_with_redirect", "round_outcomes/survived"],
+    "C03": ["processing_calls_with_veto", "processing_calls_with_redirect", "round_outcomes/vetoed"],
+    "C05": ["api_calls/update", "api_calls/react", "api_calls/query"],
+    "C06": ["guard_views_checked", "in_callback_assertion_sets", "setContext_calls"],
+    "C07": ["payload_seen_in_enter", "no_payload_seen_in_enter"],
+    "C08": ["fires_checked", "converse_fire_obligations", "plan_steps_with_fires"],
+    "C09": ["outcomes/planFailed", "outcomes/planSucceeded", "converse_planFailed_obligations_met"],
+    "C10": ["plan_appends_at_capacity", "plan_iterator_removes", "plan_leak_probes", "plan_clears", "plan_first_last_checked"],
+    "C11": ["replay_steps", "replica_comparisons"],
+    "C12": ["save_load_roundtrips"],
+    "C15": ["c15_deliveries_checked/" + m for m in METHODS12],
+    "C16": ["c16_deliveries_matched_to_records", "c16_action_records_matched", "log_records/method", "log_records/transition",
+            "log_records/taskStatus", "log_records/cancelledPending"],
+    "C17": ["copies", "copy_lockstep_operations", "copy_state_data_comparisons"],
+}
+
+
+def floors_for(prop, configs):
+    out = list(FLOORS.get(prop, []))
+    if prop == "C04":
+        # the limit itself must have been reached for every configured value (incl. the largest the type can hold)
+        out += ["calls_at_round_limit/L=%d" % L for L in sorted(set(c["L"] for c in configs))]
+    return out
 
 
 def cases_for(tier, quick, thorough):
